@@ -101,10 +101,32 @@ def _gen_rs(rng, tier):
 
 
 U256P = ("int", 1, 2**256 - 1)
+# DER.  r and s are given by their 32 big-endian bytes (every value below 2^256 is of that form), so the encoder's byte tests
+# are tests on symbolic bytes; int.from_bytes is tied to the bytes (int_bytes_expand).  Quick tier: each field for ALL its
+# values with the other one in its top length class (64 paths each); thorough tier: the full product (4096 paths).
+def _gen_rsb(rng, tier):
+    for d in _gen_rs(rng, tier):
+        yield {"rb": d["r"].to_bytes(32, "big"), "sb": d["s"].to_bytes(32, "big")}
+
+
+_TOPB = ("const", b"\x80" + bytes(31))
+_NZ = ["int.from_bytes(rb, 'big') >= 1", "int.from_bytes(sb, 'big') >= 1"]
+for _tag, _pr, _ps, _tiers, _mp in (("r-any", "bytes:32", _TOPB, ("quick", "thorough"), 400), ("s-any", _TOPB, "bytes:32", ("quick", "thorough"), 400),
+                                    ("all", "bytes:32", "bytes:32", ("thorough",), 10000)):
+    contract("verif.harness.ecc.der_roundtrip_bytes#" + _tag, props=("C01",), params={"rb": _pr, "sb": _ps}, requires=_NZ,
+             int_bytes_expand=33, max_paths=_mp, tiers=_tiers,
+             ensures=["returns()", "result == (int.from_bytes(rb, 'big'), int.from_bytes(sb, 'big'))"], gen=_gen_rsb)
+    contract("verif.harness.ecc.der_of_bytes#" + _tag, props=("C01",), params={"rb": _pr, "sb": _ps}, requires=_NZ,
+             int_bytes_expand=33, max_paths=_mp, tiers=_tiers,
+             ensures=["returns()", "result == spec.ecdsa.der_of_bytes(rb, sb)",
+                      "len(result) <= 72 and result[0] == 0x30 and result[1] == len(result) - 2"], gen=_gen_rsb)
+# integer-level statements against the integer-level spec: run-time companion only (the symbolic run of to_bytes(33).lstrip on
+# 256-bit integers costs several solver-seconds per path and 1100 paths)
 contract("verif.harness.ecc.der_of", props=("C01",), params={"r": U256P, "s": U256P},
-         ensures=["returns()", "result == spec.ecdsa.der(r, s)"], gen=_gen_rs, max_paths=5000, tiers=("thorough",))
+         ensures=["returns()", "result == spec.ecdsa.der(r, s)",
+                  "result == spec.ecdsa.der_of_bytes(r.to_bytes(32, 'big'), s.to_bytes(32, 'big'))"], gen=_gen_rs, tiers=("runtime-only",))
 contract("verif.harness.ecc.der_roundtrip", props=("C01",), params={"r": U256P, "s": U256P},
-         ensures=["returns()", "result == (r, s)"], gen=_gen_rs, max_paths=5000, tiers=("thorough",))
+         ensures=["returns()", "result == (r, s)"], gen=_gen_rs, tiers=("runtime-only",))
 
 
 # ---------------------------------------------------------------------------- C02 BIP340
